@@ -4,6 +4,7 @@ package main
 
 import (
 	"fmt"
+	"go/token"
 
 	"golang.org/x/tools/go/ssa"
 )
@@ -16,6 +17,7 @@ func init() {
 		Rules: map[string]string{
 			"R1": "closed writer set and value shapes of TableState.CurrentActionEndAt; extension returns the stored value; no address escape",
 			"R2": "clear wiring: hook registered before Start; hand stores it; round-closed handler invokes it before Next; continue step resets to 0 on every path",
+			"R3": "turn predicate atoms: the turn deadline is stored only under status playing ∧ round-started event ∧ betting round ∧ the current player has allowed actions ∧ has not acted (pokerface's Acted flag)",
 		},
 		Assumptions: []string{"time.Now/Add/Unix semantics"},
 		Run:         checkC15,
@@ -89,6 +91,48 @@ func checkC15(c *Ctx) {
 		}
 	}
 	c.Min("R1", "deadline writers", n, 4)
+	// R3: necessary atoms of the turn predicate
+	for _, ss := range p.FieldStores("TableState", "CurrentActionEndAt") {
+		if storeIsLocal(ss.Instr) || !ss.Val.IsCall("time.Time.Unix") || !ss.Val.Strip().Args[0].IsCall("time.Time.Add") || !ss.Val.Strip().Args[0].Strip().Args[0].IsCall("time.Now") {
+			continue
+		}
+		gs := p.Guards(ss.Instr)
+		where := p.InstrPos(ss.Instr)
+		isCur := func(s *Sym) bool {
+			s = s.Strip()
+			return s.IsCall("pokerface.GameState.GetPlayer") && len(s.Args) == 2 && s.Args[1].Strip().IsField("Status", "CurrentPlayer")
+		}
+		playing := cmpHolds(gs, func(l, r *Sym, op token.Token) bool {
+			v, _ := r.ConstString()
+			return op == token.EQL && l.Strip().IsField("TableState", "Status") && v == "table_game_playing"
+		})
+		started := cmpHolds(gs, func(l, r *Sym, op token.Token) bool {
+			z, ok := r.ConstInt()
+			return op == token.EQL && ok && z == gameEventConst(p, "GameEvent_RoundStarted") && l.Strip().Kind == "param"
+		})
+		round := guardedBy(gs, true, func(s *Sym) bool {
+			return s.IsCall("funk.Contains") && len(s.Args) == 2 && s.Args[1].Strip().IsField("Status", "Round")
+		})
+		asked := cmpHolds(gs, func(l, r *Sym, op token.Token) bool {
+			return op == token.GTR && r.Strip().Name == "0" && l.IsCall("len") && l.Strip().Args[0].Strip().Kind == "field" && l.Strip().Args[0].Strip().Name == "AllowedActions" && isCur(l.Strip().Args[0].Strip().Args[0])
+		})
+		notActed := guardedBy(gs, false, func(s *Sym) bool {
+			return s.Kind == "field" && s.Name == "Acted" && isCur(s.Args[0])
+		})
+		for _, a := range []struct {
+			name string
+			ok   bool
+			why  string
+		}{
+			{"status-playing", playing, "a deadline can be published while no hand is being played"},
+			{"round-started-event", started, "a deadline can be published on an event other than the start of a betting turn"},
+			{"betting-round", round, "a deadline can be published outside the betting rounds"},
+			{"player-is-asked", asked, "a deadline can be published although the current player has no allowed action"},
+			{"player-has-not-acted", notActed, "the 'has not yet acted' test no longer reads the hand engine's Acted flag of the current player: a player asked again after a raise (or one who already acted) gets a wrong deadline"},
+		} {
+			c.Check(a.ok, "R3", "turn-predicate:"+a.name, where, a.name, a.why)
+		}
+	}
 	c.Check(shapes["turn"] >= 1 && shapes["extend"] >= 1 && shapes["clear"] >= 2, "R1", "all-shapes-present", "-", fmt.Sprintf("turn=%d extend=%d clear=%d", shapes["turn"], shapes["extend"], shapes["clear"]), fmt.Sprintf("a deadline writer is missing (turn=%d extend=%d clear=%d)", shapes["turn"], shapes["extend"], shapes["clear"]))
 	esc := p.addrEscapes("TableState", "CurrentActionEndAt")
 	c.Check(len(esc) == 0, "R1", "no-address-escape", "-", "address used only by loads/stores", "the deadline's address escapes")
